@@ -23,6 +23,8 @@ def configs():
             "path_kind": st.sampled_from(["str", "Path"]),
             "mode": st.sampled_from(["w", "o"]),
             "pre": st.sampled_from(["fresh", "fresh", "existing_zip", "existing_dir", "existing_store", "existing_store"]),
+            # explicit store="zip": the target may be written without the ".zip" suffix, which save() appends
+            "ext": st.sampled_from(["given", "appended"]),
         }
     ).map(_fix_cfg)
 
@@ -33,13 +35,14 @@ def _fix_cfg(c):
     return c
 
 
-def cases(depth=3):
+def cases(depth=3, force=None):
+    cfg = configs() if force is None else configs().map(lambda c: dict(c, **force))
     return st.fixed_dictionaries(
         {
             "kind": st.just("roundtrip"),
             "root": gg.objects(depth, min_attrs=2, max_attrs=6),
-            "cfg1": configs(),
-            "cfg2": configs(),
+            "cfg1": cfg,
+            "cfg2": cfg,
         }
     )
 
@@ -88,6 +91,7 @@ def leaf_kinds():
     for name, shape, grad, param, view in [
         ("rows-grad", [2, 3], True, False, "rows"), ("index-grad", [3], True, False, "index"), ("rows-param", [2, 2], True, True, "rows"),
         ("transpose-grad", [2, 3], True, False, "transpose"), ("rows-nograd", [4], False, False, "rows"), ("0d-index-grad", [], True, False, "index"),
+        ("rows-live-grad", [2, 3], True, False, "rows_live"), ("index-live-grad", [3], True, False, "index_live"), ("rows-live-nograd", [2], False, False, "rows_live"),
     ]:  # fmt: skip
         ks["tensor-view-" + name] = I.map(lambda sd, shape=shape, grad=grad, param=param, view=view: {"t": "tensor", "dtype": "float32", "shape": shape, "seed": sd, "grad": grad, "param": param, "view": view})
     for cls in ("NodeA", "NodeB"):
@@ -184,16 +188,20 @@ def save_load(ctx, case, obj, cfg, tag, what):
                 f.write("old")
         store = {"zip": "zip", "dir": "dir", "auto_zip": "auto", "auto_dir": "auto"}[cfg["store"]]
         target = pathlib.Path(p) if cfg["path_kind"] == "Path" else p
+        save_target = target
+        if store == "zip" and cfg.get("ext") == "appended":
+            save_target = pathlib.Path(p[:-4]) if cfg["path_kind"] == "Path" else p[:-4]
         sink = io.StringIO()
         if cfg["pre"] == "existing_store":
             # history: a valid store of ANOTHER object (other class, same attribute names with other contents, one
             # extra attribute) already sits at the target; mode="o" must replace it completely (seeded change C01-11)
             with ctx.sut(case, "%s: earlier save of a decoy object at the same target" % what):
                 with contextlib.redirect_stdout(sink):
-                    gg.build(_decoy(case["root"])).save(p, mode="w", store=store)
+                    gg.build(_decoy(case["root"])).save(save_target, mode="w", store=store)
+                    load(target)  # ... which was also read once (seeded change C01-12: a load-side cache of the last archive)
         with ctx.sut(case, "%s: save(store=%s, compression=%r, mode=%s, pre=%s)" % (what, store, cfg["compression"], cfg["mode"], cfg["pre"])):
             with contextlib.redirect_stdout(sink):
-                obj.save(target, mode=cfg["mode"], store=store, compression_level=cfg["compression"])
+                obj.save(save_target, mode=cfg["mode"], store=store, compression_level=cfg["compression"])
         if not os.path.exists(p):
             raise core.Violation("%s: save() returned but target %s does not exist" % (what, os.path.basename(p)), case)
         if zipped != os.path.isfile(p):
@@ -245,5 +253,9 @@ def search(ctx):
         core.run_given(ctx, "matrix-" + name, matrix_cases(strat), lambda c: check(ctx, c), ctx.n(2, 12), shrink=True)
     ctx.extra["matrix_kinds_enumerated"] = len(kinds)
     core.run_given(ctx, "graphs", cases(3), lambda c: check(ctx, c), ctx.n(55, 800))
+    # overwrite histories, one stratum per way of naming the target: mode="o" onto a valid store of another object that
+    # was saved AND loaded before (a uniform draw left zip + appended suffix + overwrite out of whole quick runs)
+    for store, ext in (("zip", "given"), ("zip", "appended"), ("dir", "given"), ("auto_zip", "given"), ("auto_dir", "given")):
+        core.run_given(ctx, "overwrite-%s-%s" % (store, ext), cases(2, {"store": store, "ext": ext, "mode": "o", "pre": "existing_store"}), lambda c: check(ctx, c), ctx.n(2, 40))
     if ctx.thorough:
         core.run_given(ctx, "deep-graphs", cases(4), lambda c: check(ctx, c), ctx.n(0, 200))
